@@ -15,6 +15,7 @@ AST
     Test  = ['name', prefix|None, local] | ['any'] | ['nsany', prefix] | ['node'] | ['text'] | ['comment']
           | ['pi', target|None]
     Pred  = ['num', n] | ['pos', op, n] | ['last'] | ['lastminus', k] | ['exists', Expr]
+          | ['dec', '2.0'] | ['div', a, b] | ['lastdiv', k] | ['lastminusdec', '1.0']   numeric but not integer-typed values
           | ['cmp', Expr, op('='|'!='), 'literal'] | ['count', Expr, op, n]
           | ['not', Pred] | ['and', Pred, Pred] | ['or', Pred, Pred]
 
@@ -292,6 +293,12 @@ class Evaluator:
             return pos == size if top else size != 0
         if k == 'lastminus':
             return pos == size - p[1] if top else size - p[1] != 0
+        if k in ('dec', 'div', 'lastdiv', 'lastminusdec'):
+            # a predicate whose value is a number of ANY numeric type is a position test (XPath 1.0 2.4, XPath 2.0 3.2.2)
+            from fractions import Fraction
+            v = Fraction(p[1]) if k == 'dec' else Fraction(p[1], p[2]) if k == 'div' else \
+                Fraction(size, p[1]) if k == 'lastdiv' else size - Fraction(p[1])
+            return pos == v if top else v != 0
         if k == 'exists':
             return bool(self.expr(p[1], n, info))
         if k == 'cmp':
@@ -312,8 +319,8 @@ class Evaluator:
         k = p[0]
         if k == 'pos':
             return True
-        if k in ('num', 'last', 'lastminus'):
-            return top or k != 'num'
+        if k in ('num', 'last', 'lastminus', 'dec', 'div', 'lastdiv', 'lastminusdec'):
+            return top or k not in ('num', 'dec', 'div')
         if k == 'not':
             return Evaluator.is_positional(p[1], False)
         if k in ('and', 'or'):
@@ -435,6 +442,14 @@ def render_pred(p):
         return 'last()'
     if k == 'lastminus':
         return 'last() - %d' % p[1]
+    if k == 'dec':
+        return p[1]
+    if k == 'div':
+        return '%d div %d' % (p[1], p[2])
+    if k == 'lastdiv':
+        return 'last() div %d' % p[1]
+    if k == 'lastminusdec':
+        return 'last() - %s' % p[1]
     if k == 'exists':
         return render(p[1])
     if k == 'cmp':
